@@ -102,6 +102,7 @@ structure Args where
   rqrc     : Bool := false          -- ReturnQueryResultClass is not None (IterQueryInstances)
   coeType  : Bool := false          -- ContinueOnError is given with a non-bool type
   filterType : Bool := false        -- FilterQuery / FilterQueryLanguage is given with a non-string type
+  srcIsClass : Bool := false        -- Associator/Reference methods: InstanceName is a class name (class-level request)
   deriving DecidableEq, Repr, Inhabited
 
 /-- mirrors _validate_MaxObjectCount_Iter -/
@@ -130,11 +131,17 @@ def maxOf : IntArg → Int
 
 
 /-- mirrors the client part of the Open…() methods: `_iparam_bool(ContinueOnError)`, `_iparam_string(FilterQuery /
-    FilterQueryLanguage)` raise TypeError before anything is sent (only for arguments that are given; the query
-    strings of IterQueryInstances are not modelled) -/
+    FilterQueryLanguage)`, `_iparam_instancename(InstanceName)` raise TypeError before anything is sent (only for
+    arguments that are given; the query strings of IterQueryInstances are not modelled).  The traditional
+    Associators/References… operations accept a class name: the fallback then yields their class-level result. -/
+def Family.hasSource : Family → Bool
+  | .assocInst | .assocPath | .refInst | .refPath => true
+  | _ => false
+
 def typeBad (a : Args) : Bool :=
   (a.coe && a.coeType) ||
-  (decide (a.fam ≠ .query) && (a.query || decide (a.lang ≠ .none)) && a.filterType)
+  (decide (a.fam ≠ .query) && (a.query || decide (a.lang ≠ .none)) && a.filterType) ||
+  (a.fam.hasSource && a.srcIsClass)      -- `_iparam_instancename`: the Open…() methods take instance paths only
 
 /-- mirrors _validate_open_params (empty strings not modelled) -/
 def serverParamErr (a : Args) : Option Nat :=
